@@ -70,8 +70,10 @@ LEVEL_TEXT.update({
  "C11": dict(text=LEVEL_TEXT["C11"]["text"], note=LEVEL_TEXT["C11"]["note"]),
  "C14": dict(text="Theorems C14_put_fault_contained, C14_fault_contained_partial, C14_reads_stay_correct_partial for EVERY fault plan: no operation panics, every "
                   "operation returns, other keys keep exactly their content, keys of a failed operation hold old or new, every later read agrees with such a map "
-                  "(one process lifetime). The reopen clause is REFUTED on the known class F4 (C14_refuted_on_known_class, witness by vm_compute; the same history "
-                  "fails on the real code: KNOWN-FINDING F4). K5: one EIO injected at every effective filesystem call of every history on the real library vs the model's "
+                  "(one process lifetime). Reopen clause: C14_reopen_after_any_single_fault (one operation hit by a fault at ANY of its calls, then a reopen: succeeds with "
+                  "the old or the new map - F4 needs a later operation of the same process), C14_history_after_benign_fault (after a fault that struck before the blob was "
+                  "published, every further history with restarts and crashes behaves as specified); in general the clause is REFUTED on the known class F4 "
+                  "(C14_refuted_on_known_class, witness by vm_compute; the same history fails on the real code: KNOWN-FINDING F4). K5: one EIO injected at every effective filesystem call of every history on the real library vs the model's "
                   "run under the same fault, then reads, two restarts and reads.",
              note=BASE_NOTE + "Partial: full statement false for model and code (finding F4, recorded in known_findings.json, not repaired). 'Never hangs' for the real "
                               "code is the harness time-out."),
